@@ -41,6 +41,27 @@ def c10_struct(tier="quick", seed=0):
                   f"every matcher loop ({names}) bounds its backtrack stack by stack_limit"))
     out.append(ob("C10.struct.poll", all_loops(lambda t: "self.poll_interval" in t and "self.poll_callback" in t and "raise RegexTimeoutError" in t), "K3",
                   f"every matcher loop ({names}) polls the deadline callback"))
+    # the step counter is set to zero only where an attempt starts -- never inside a matcher loop, where a reset
+    # (e.g. "a fresh budget for each look-ahead body") would switch off both the step limit and the polling that hangs off it
+    resets_in_loop, resets = [], 0
+    for f in ast.walk(tree):
+        if isinstance(f, ast.FunctionDef):
+            loop_nodes = set()
+            for w in ast.walk(f):
+                if isinstance(w, (ast.While, ast.For)):
+                    loop_nodes.update(id(n) for n in ast.walk(w))
+            for n in ast.walk(f):
+                tgts = n.targets if isinstance(n, ast.Assign) else ([n.target] if isinstance(n, (ast.AugAssign, ast.AnnAssign)) else [])
+                for t_ in tgts:
+                    if "step_count" in ast.unparse(t_):
+                        plain_increment = isinstance(n, ast.AugAssign) and isinstance(n.op, ast.Add) and ast.unparse(n.value) == "1"
+                        if not plain_increment:
+                            resets += 1
+                            if id(n) in loop_nodes or f in loops and not ast.unparse(n.value) == "0":
+                                resets_in_loop.append(f"{f.name}:{n.lineno}")
+    out.append(ob("C10.struct.step-counter-reset-only-at-attempt-start", resets >= 1 and not resets_in_loop, "K3",
+                  f"{resets} assignment(s) to the step counter other than `+= 1`; inside a loop: {resets_in_loop}",
+                  witness="/^(?:(?=a)a|(?=a)a)*b/.test('a'.repeat(40) + 'c')"))
     # the budget is per attempt and does not grow with the subject
     ex = ast.unparse(S.fn("microjs.regex.vm", "RegexVM._execute"))
     lim = [n for f in loops for n in ast.walk(f) if isinstance(n, ast.Compare) and "step_limit" in ast.unparse(n)]
@@ -50,13 +71,42 @@ def c10_struct(tier="quick", seed=0):
     return out
 
 
-META = list("()[]{}|*+?.^$\\-,:=!<>") + ["\\d", "\\w", "\\s", "\\b", "\\1", "\\2", "a", "b", "1", "(?:", "(?=", "(?!", "(?<=", "(?<!", "{2}", "{1,", "{,3}", "{2,1}", "[^", "\\u", "\\x", "\\c", "{100000000}"]
+META = list("()[]{}|*+?.^$\\-,:=!<>") + ["\u0130", "\u00df", "\u212a", "\\u0130", "k", "s", "i", "\\d", "\\w", "\\s", "\\b", "\\1", "\\2", "a", "b", "1", "(?:", "(?=", "(?!", "(?<=", "(?<!", "{2}", "{1,", "{,3}", "{2,1}", "[^", "\\u", "\\x", "\\c", "{100000000}"]
+# bodies that compile to nothing under huge counts (the program size limit cannot trigger: nothing is emitted)
+HUGE = ["(?:){N}", "(){N}", "(?:|){N}", "(?:a{0}){N}", "(?:(?:){N}){N}", "(?:){N,}", "(?:){0,N}", "a{N}", "(?:a|b){N}", "(?=){N}", "\\b{N}", "^{N}", "(?:^){N}", "[]{N}",
+        "(?:a{0,0}){N}", "((?:)){N}"]
+SUBJECTS = ["", "a", "ab", "aaaaaaaaaaaaaaaaaaaaaaaa", "foo bar", "aXb\n", "\u0130", "\u00df", "K\u212ak", "\u01c5\u017f", "\ud83d\ude00", "a\u0130b\u00dfss"]
+
+
+def _literal_ok(pat):
+    """can the pattern be written between slashes (ECMA-262 12.9.5 RegularExpressionLiteral: no line terminator, a `/`
+    only inside a class or escaped, classes closed, no trailing backslash, not starting with `*`)"""
+    if not pat or pat[0] in "*/=" or any(c in pat for c in "\n\r\u2028\u2029"):
+        return False
+    in_class, i = False, 0
+    while i < len(pat):
+        c = pat[i]
+        if c == "\\":
+            if i + 1 >= len(pat):
+                return False
+            i += 2
+            continue
+        if c == "[":
+            in_class = True
+        elif c == "]":
+            in_class = False
+        elif c == "/" and not in_class:
+            return False
+        i += 1
+    return not in_class
+
+
 VALID = ["a*b", "(a|b)+c", "[a-c]{2,3}", "a(?=b)", "(?<=a)b", "(a)\\1", "^a.b$", "\\bfoo\\b", "(?:ab)*?c", "[^\\d\\s]+", "a{2}b{0,1}", "((a)|(b))*", "\\u0041", "(a*)*b", "(a|a)*c", "(x+x+)+y"]
 
 
 def _soup_chunk(args):
     seed, n = args
-    import signal
+    import signal, time
     from microjs import Context
     r = random.Random(seed)
     bad = []
@@ -73,20 +123,40 @@ def _soup_chunk(args):
             v = r.choice(VALID)
             j = r.randrange(len(v) + 1)
             pat = v[:j] + r.choice(META) + v[j:] if r.random() < 0.5 else v[:j]
-        else:
+        elif k < 0.9:
             pat = "(" * r.randint(1, 40) + "a" + ")" * r.randint(0, 40) if r.random() < 0.5 else "(a)" * r.randint(100, 600)
-        flags = r.choice(["", "g", "i", "gim", "s", "y", "x", "gg", "u"])
-        subj = r.choice(["", "a", "ab", "aaaaaaaaaaaaaaaaaaaaaaaa", "foo bar", "aXb\n"])
-        src = (f"var r; try {{ var re = new RegExp({json.dumps(pat)}, {json.dumps(flags)}); r = ['ok', re.test({json.dumps(subj)}), typeof re.exec({json.dumps(subj)}), "
-               f"{json.dumps(subj)}.replace(re, 'x').length >= 0, {json.dumps(subj)}.split(re).length >= 0, {json.dumps(subj)}.search(re) >= -1] }} "
-               "catch (e) { r = ['err', e.name, e instanceof SyntaxError || e instanceof RangeError] } r")
+        else:
+            pat = r.choice(HUGE).replace("N", r.choice(["9999999", "100000000", "65536", "4294967296"])) + r.choice(["", "a", "$"])
+        flags = r.choice(["", "g", "i", "gim", "s", "y", "x", "gg", "u", "i", "gi", "iy"])
+        subj = r.choice(SUBJECTS)
+        sj = json.dumps(subj)
+        form = r.choice(["ctor", "ctor", "literal", "string-pattern", "literal-unused"])
+        if form.startswith("literal") and not (_literal_ok(pat) and flags.isalpha() or (_literal_ok(pat) and flags == "")):
+            form = "ctor"
+        uses = (f"r = ['ok', re.test({sj}), typeof re.exec({sj}), {sj}.replace(re, 'x').length >= 0, {sj}.split(re).length >= 0, {sj}.search(re) >= -1, "
+                f"typeof {sj}.match(re), {sj}.replaceAll(new RegExp(re.source, 'g'), 'x').length >= 0]")
+        if form == "ctor":
+            body = f"var re = new RegExp({json.dumps(pat)}, {json.dumps(flags)}); {uses}"
+        elif form == "literal":
+            # a regex literal: an invalid pattern is a SyntaxError the script can catch, like the constructor's
+            body = f"var re = /{pat}/{flags}; {uses}"
+        elif form == "literal-unused":
+            # ... and a literal that is never evaluated does not stop the program
+            body = f"if (false) {{ var dead = /{pat}/{flags}; }} var unused = function () {{ return /{pat}/{flags}; }}; r = ['ok']"
+        else:
+            # the pattern given as a string to the String methods that build a RegExp from it
+            body = f"r = ['ok', typeof {sj}.match({json.dumps(pat)}), {sj}.search({json.dumps(pat)}) >= -1]"
+        src = f"var r; try {{ {body} }} catch (e) {{ r = ['err', e.name, e instanceof SyntaxError || e instanceof RangeError] }} r"
         cnt += 1
         signal.setitimer(signal.ITIMER_PROF, 20)
+        t0 = time.process_time()
         try:
             got = Context(time_limit=2.0).eval(src)
             ok = (got[0] == "ok") or (got[0] == "err" and got[2] is True)
             if not ok:
                 bad.append((src, repr(got)[:120]))
+            elif time.process_time() - t0 > 6.0:
+                bad.append((src, f"{time.process_time() - t0:.1f} s of CPU time under time_limit=2 (unpolled work)"))
         except TimeoutError:
             bad.append((src, "HANG > 20 s under time_limit=2"))
         except Exception as e:  # noqa
@@ -99,7 +169,7 @@ def _soup_chunk(args):
     return cnt, bad
 
 
-REDOS = ["(a*)*b", "(a+)+b", "(a|a)*b", "(a|aa)+b", "(.*)*x", "(\\w+\\s?)+$", "(a*)\\1*b", "(?=(a+)+b)a", "(?<=(?:a|a)*c)x", "((a?){20}){20}b", "(x+x+)+y", "(?:(?:a*){2})*b", "(?:a*)*?b", "([ab]*)*c"]
+REDOS = ["^(?:(?=a)a|(?=a)a)*b", "(?:(?!b)a|(?!b)a)*b", "(a*)*b", "(a+)+b", "(a|a)*b", "(a|aa)+b", "(.*)*x", "(\\w+\\s?)+$", "(a*)\\1*b", "(?=(a+)+b)a", "(?<=(?:a|a)*c)x", "((a?){20}){20}b", "(x+x+)+y", "(?:(?:a*){2})*b", "(?:a*)*?b", "([ab]*)*c"]
 
 
 def _redos_case(args):
